@@ -85,14 +85,19 @@ class Check(PropertyCheck):
                 idx = self.rng.range(8, 21)
                 art = cat[idx][0].split("\n")
                 mid = len(art) // 2
+                # the middle row, or (every other time) any interior row: the tag centred, or flush against the outline
+                # on the left or on the right (between the outline characters of its row: inside the circle as drawn)
+                if self.rng.chance(1, 2):
+                    mid = self.rng.range(1, len(art) - 2) if len(art) > 2 else mid
                 row = art[mid]
                 l = len(row) - len(row.lstrip())
-                # interior of the middle row: between the first and last drawing character
+                # interior of the row: between the first and last drawing character
                 first = l
                 last = len(row.rstrip()) - 1
                 space = last - first - 1
-                if space >= len(tag) + 2:
-                    start = first + 1 + (space - len(tag)) // 2
+                if space >= len(tag) + 2 and row[first + 1:last].strip() == "":
+                    align = self.rng.below(3)
+                    start = first + 1 + (space - len(tag)) // 2 if align == 0 else first + 1 if align == 1 else last - len(tag)
                     row = row[:start] + tag + row[start + len(tag):]
                     art[mid] = row
                     out.append((gen.place("\n".join(art), k, nn), "circle", names, [], tag))
